@@ -181,20 +181,19 @@ func runC19(r *Rec) {
 		case "keeper":
 			err = withCache(ctx, func(c sdk.Context) error { return k.SetNetworkProperty(c, govtypes.NetworkProperty(id), req) })
 		case "proposal":
-			h := govPkgApplySetNetworkProperty(k)
 			content := &govtypes.SetNetworkPropertyProposal{NetworkProperty: govtypes.NetworkProperty(id), Value: req}
 			// the proposal handler rejects a no-op update before calling the keeper; mirror that here so the
 			// model sees the same op stream: a rejected no-op is reported as `same`
 			cur, gerr := k.GetNetworkProperty(ctx, govtypes.NetworkProperty(id))
 			if gerr == nil && cur == req {
-				err = withCache(ctx, func(c sdk.Context) error { return h.Apply(c, 1, content, sdk.ZeroDec()) })
+				err = w.Enact(ctx, 1, content)
 				if err == nil {
 					r.Fail("C19/proposal/no-op-accepted", fmt.Sprintf("proposal setting id %d to its current value was applied", id), nil)
 				}
 				r.Count("proposal-noop")
 				return
 			}
-			err = withCache(ctx, func(c sdk.Context) error { return h.Apply(c, 1, content, sdk.ZeroDec()) })
+			err = w.Enact(ctx, 1, content)
 		}
 		out := "ok"
 		if err != nil {
